@@ -13,6 +13,7 @@ from rstparse import Page
 
 SUBST = {"PFX": "pfx", "DIRNAME": "proj", "MODNAME": "my.mod-ule", "MODBODY": "module body text", "CMDDOC": "command doc text"}
 ALL_FILES = [["x.cmake"], ["a", "x.cmake"], ["a", "b", "Y.CMAKE"], ["a", "b", "z.cmake"], ["a", "d.e-f.cmake"], ["x.cmake.cmake"]]
+LINKS = {("a", "lnk.cmake"): "../x.cmake"}
 
 
 def file_text(run):
@@ -72,6 +73,9 @@ def replay_one(beh, sandbox):
         os.makedirs(os.path.join(proj, *rel[:-1]), exist_ok=True)
         with open(os.path.join(proj, *rel), "w") as fh:
             fh.write(text)
+    for rel, target in LINKS.items():
+        if not os.path.lexists(os.path.join(proj, *rel)):
+            os.symlink(target, os.path.join(proj, *rel))
     home = os.path.join(sandbox, "home")
     os.makedirs(home, exist_ok=True)
     outdir = os.path.join(sandbox, "out")
@@ -210,5 +214,30 @@ def replay(run, behs, seed, limit=None):
                         run.drifted({"run": beh["run"], "impl": beh["impl"], "observed": obs})
         if behs:
             run.sample({"run": behs[0]["run"], "ideal": behs[0]["ideal"]})
+    finally:
+        subprocess.run(["rm", "-rf", base])
+
+
+def case_collision(run):
+    """Two files of one directory whose names differ only in the letter case of the extension get different titles."""
+    import re
+    base = tempfile.mkdtemp(prefix="verif_c12c_", dir="/dev/shm" if os.path.isdir("/dev/shm") else None)
+    try:
+        proj = os.path.join(base, "proj")
+        os.makedirs(proj)
+        home = os.path.join(base, "home")
+        os.makedirs(os.path.join(home, ".config", "cminx"))
+        for f in ("tool.cmake", "tool.CMAKE", "other.cmake"):
+            with open(os.path.join(proj, f), "w") as fh:
+                fh.write("function(f_%s)\nendfunction()\n" % f.replace(".", "_"))
+        exc, out = run_main(["proj"], base, home)
+        run.count("case-collision")
+        titles = re.findall(r"^\n?(#+)\n(.+)\n\1$", out, re.M)
+        names = [t[1] for t in titles]
+        mods = re.findall(r"^\.\. module:: (.*)$", out, re.M)
+        if exc or len(names) != 3 or len(set(names)) != 3 or len(set(mods)) != 3:
+            run.violation({"files": ["tool.cmake", "tool.CMAKE", "other.cmake"], "features": {"case_collision": True}},
+                          "three pages with pairwise different titles and module names", {"exc": exc, "titles": names, "modules": mods},
+                          "different files of one run do not get different titles / module names")
     finally:
         subprocess.run(["rm", "-rf", base])
